@@ -170,7 +170,9 @@ def main():
                        "ext": ext, "freq": freq, "dof0": qi(dof0), "dof1": qi(dof1)})
     # several items with different elastic constants, densities and scale factors on one global field (x0):
     # K = sum_i multiplier_i K_i and M = sum_i M_i, each re-assembled from a fresh copy of the item
-    for rep in range(2 if quick else 6):
+    # the scale factors are placed on the items in every pattern of the item order (last only, first only, both, none): an item
+    # without a factor that follows one with a factor is scaled by one
+    for rep in range(4 if quick else 12):
         rid = "multi-%d" % rep
         if not out.want(rid):
             continue
@@ -184,8 +186,10 @@ def main():
         cont = fem.MeshContainer(parts, merge=True)
         gmesh = cont.stack()
         x0 = fem.FieldContainer([Fld(Reg(gmesh), dim=dim)])
-        par = [(float(rng.choice([2.0, 4.0])), 0.25, float(rng.choice([0.5, 1.0])), None),
-               (float(rng.choice([1.0, 8.0])), 0.375, float(rng.choice([1.5, 2.0])), float(rng.choice([2.0, 3.0])))]
+        mus = float(rng.choice([2.0, 3.0])), float(rng.choice([4.0, 0.5]))
+        mu_a, mu_b = [(None, mus[0]), (mus[1], None), (mus[1], mus[0]), (None, None)][(rep // 2) % 4]
+        par = [(float(rng.choice([2.0, 4.0])), 0.25, float(rng.choice([0.5, 1.0])), mu_a),
+               (float(rng.choice([1.0, 8.0])), 0.375, float(rng.choice([1.5, 2.0])), mu_b)]
         mk = lambda: [fem.SolidBody(fem.LinearElastic(E=E_, nu=nu_), fem.FieldContainer([Fld(Reg(m_), dim=dim)]), density=rho_,  # noqa: E731
                                     **({} if mu_ is None else {"multiplier": mu_})) for (E_, nu_, rho_, mu_), m_ in zip(par, cont.meshes)]
         b = {"left": fem.Boundary(x0[0], fx=0, skip=(0, 1, 1)[:dim]), "bottom": fem.Boundary(x0[0], fy=0, skip=(1, 0, 1)[:dim])}
